@@ -17,7 +17,8 @@ use reactive_graph::{
         arc_signal, signal, ArcRwSignal, ArcTrigger, ReadSignal, RwSignal, WriteSignal,
     },
     traits::{
-        Dispose, GetUntracked, GetValue, IntoInner, IsDisposed, Notify, Track, UpdateUntracked,
+        Dispose, GetUntracked, GetValue, IntoInner, IsDisposed, Notify, ReadValue, Track,
+        UpdateUntracked, UpdateValue, WithValue, WriteValue,
     },
     wrappers::read::Signal,
 };
@@ -171,7 +172,8 @@ impl Val for Option<char> {
 
 trait ItemH {
     /// `None` = does not resolve; `Some(h)` = resolves to its own value; `Some(-3)` = resolves to
-    /// something else (both access paths, `try_with_value` and `try_get_value`, are used)
+    /// something else, or the access paths (`try_with_value`, `try_get_value`, `try_update_value`)
+    /// disagree
     fn read(&self) -> Option<i64>;
     fn disposed(&self) -> bool;
     fn dispose(&self);
@@ -187,9 +189,10 @@ impl<T: Val, S: Storage<T>> ItemH for It<T, S> {
         let h = self.h;
         let a = self.item.try_with_value(|v| v.is(h));
         let b = self.item.try_get_value().map(|v| v.is(h));
-        match (a, b) {
-            (None, None) => None,
-            (Some(true), Some(true)) => Some(h),
+        let c = self.item.try_update_value(|v| v.is(h));
+        match (a, b, c) {
+            (None, None, None) => None,
+            (Some(true), Some(true), Some(true)) => Some(h),
             _ => Some(-3),
         }
     }
@@ -704,7 +707,15 @@ fn statuses() -> Sexp {
     for i in 0..n {
         let (v, d) = ctx(|c| match &c.handles[i] {
             Handle::Sig(s) => (s.try_get_untracked(), s.is_disposed()),
-            Handle::Stored(s) => (s.try_get_value(), s.is_disposed()),
+            Handle::Stored(s) => {
+                // ReadValue / WriteValue: every access path must agree
+                let (a, b, c) = (
+                    s.try_get_value(),
+                    s.try_with_value(|v| *v),
+                    s.try_update_value(|v| *v),
+                );
+                (if a == b && b == c { a } else { Some(-3) }, s.is_disposed())
+            }
             Handle::Item(s) => (s.read(), s.disposed()),
         });
         // the value it resolves to, -1 = disposed; -4 / -5 = `is_disposed()` contradicts the access
